@@ -578,7 +578,7 @@ func runC09(c *Ctx) {
 			found = true
 			ro := rangedOver(l)
 			full := ro != nil && ro.Full && onlyExhaustionExit(l)
-			uncond := s.RC[site.Block()] == u.bdd.And(s.RC[l.Header], contCond(u, s, l))
+			uncond := s.RCAt(site) == u.bdd.And(s.RC[l.Header], contCond(u, s, l))
 			c.Check(full && uncond, "C09.R7", key, site.Pos(), "complete range, no early exit, remover called in every iteration",
 				fmt.Sprintf("the loop does not apply every exception (complete range without early exit=%v, called unconditionally=%v)", full, uncond))
 			// the exception list: appended exactly when Whitelist, in a full scan of the DNSRewritesAll() result
